@@ -6,8 +6,10 @@ CONSTANTS
   MaxAccts = 2
   AttemptUsers = {"alice", "bob"}
   Lens = {1, 8, 19, 21, 40}
+  NulLens = {1, 19, 20, 21, 32}
+  PadLens = {1, 12}
 INIT Init
 NEXT Next
-INVARIANTS TypeOK AcceptSound MalformedRejected WrongRejected NoAccountRejected AllLockedRejected AcceptComplete ExactFirst
+INVARIANTS TypeOK AcceptSound MalformedRejected EmptyOnlyPasswordless ExactAccepted WrongRejected NoAccountRejected AllLockedRejected AcceptComplete ExactFirst
 ACTION_CONSTRAINT Emit
 CHECK_DEADLOCK FALSE
